@@ -222,6 +222,8 @@ inductive ROp
   | cqsync
   | next (pick : Nat)
   | readable
+  /-- `SubmissionQueue::{len, is_full, capacity}` -/
+  | sqinfo
 deriving Repr, Inhabited
 
 inductive ROut
@@ -232,6 +234,7 @@ inductive ROut
   | none_
   | cqe (ud : Nat) (res : Int) (buf : List Nat)
   | ready (b : Bool)
+  | sq (len : Nat) (full : Bool) (cap : Nat)
 deriving DecidableEq, Repr, Inhabited
 
 def ringStep (now : Nat) (fs : Files) (r : RingSt) : ROp → RingSt × Files × ROut
@@ -256,6 +259,7 @@ def ringStep (now : Nat) (fs : Files) (r : RingSt) : ROp → RingSt × Files × 
                    drained := r1.drained ++ [⟨x.sid, x.ud, res.2.1, now, x.at_, x.lat, x.canc, x.apply⟩] },
           res.1, .cqe x.ud res.2.1 res.2.2)
   | .readable => (r, fs, .ready (decide (0 < readyCount r now)))
+  | .sqinfo => (r, fs, .sq r.sq.length (decide (r.depth ≤ r.sq.length)) r.depth)
 
 /-! ## one ring in an arbitrary environment -/
 
@@ -346,6 +350,7 @@ def goneOut : ROp → HOut
   | .cqsync => .ring (.synced 0)
   | .next _ => .ring .none_
   | .readable => .noRing
+  | .sqinfo => .ring (.sq 0 true 0)
 
 /-- `Fs::crash` for already-durable directory entries, no torn writes: pending data is lost;
     the host's software died with all its file handles. -/
